@@ -4,7 +4,7 @@ from __future__ import annotations
 import sympy as sp
 
 from .. import terms as T
-from ..terms import P, op, Str, CMP
+from ..terms import P, op, Str, CMP, fname, NONE_T
 from ..interp import DatasetVal, Interp
 from .. import envres
 from .common import CLS_1D, CLS_2D, spectrum_self, spec_interp, norm_sel, F, E, dsv
@@ -105,6 +105,8 @@ def run(ctx):
         ctx.absorb(it)
         ctx.notes.extend(it.unknown_notes[:5])
 
+    mean_method_rules(ctx, p, f_eq, fmax, power, nb)
+
     # Charnock relation on its own (shared with C10)
     it = Interp(p)
     fch = p.get_function("wavephysics.roughness.charnock_roughness_length")
@@ -117,3 +119,80 @@ def run(ctx):
     ctx.require_count("R12.1", 2)
     ctx.require_count("R12.2", 16)
     ctx.require_count("R12.3", 3)
+    ctx.require_count("R12.5", 7)
+
+
+def mean_method_rules(ctx, p, f_eq, fmax, power, nb):
+    """R12.5: the minimum-variance window of the mean method - criterion, windows, selection and average"""
+    it = spec_interp(p, {CLS_1D.rsplit(".", 1)[0] + ".WaveSpectrum.number_of_spectra": "nspec"})
+    me = spectrum_self(p, CLS_1D)
+    r = it.call_function(f_eq, [me, "mean", fmax, power, nb], {}, None)
+    tag = "equilibrium_range_values[mean]"
+    if not (isinstance(r, tuple) and len(r) == 3):
+        ctx.unsure("R12.5", tag, "does not return (e, a1, b1)", f_eq.loc(), derived=T.to_term(r))
+        return
+    S = F**power * E
+    terms = [T.to_term(x) for x in r]
+    tabs = T.find_ops(terms[0], "tabulate")
+    if len(tabs) != 1:
+        ctx.unsure("R12.5", tag + "[criterion]", "running-window loop not summarised as one tabulation", f_eq.loc())
+        return
+    tab = tabs[0]
+    lv = tab.args[3]
+    nf = op("len", F)
+    win = op("item", S, sp.Tuple(sp.Symbol("Ellipsis"), op("slc", lv, op("min", sp.Tuple(lv + nb, nf), NONE_T), NONE_T)))
+    wins = [w for w in T.find_ops(tab.args[2], "item") if w.args[0] == S]
+    if len(wins) == 1:
+        win = wins[0]
+    idx = win.args[1] if fname(win) == "item" else None
+    sl = idx.args[-1] if isinstance(idx, sp.Tuple) and len(idx.args) else None
+    okwin = len(wins) == 1 and fname(sl) == "slc" and sl.args[0] == lv and sl.args[2] == NONE_T \
+        and T.equivalent(sl.args[1], op("min", sp.Tuple(lv + nb, nf), NONE_T)) == T.Verdict.EQUAL
+    ctx.expect(okwin, "R12.5", tag + "[window]", "each candidate is the window of `number_of_bins` bins starting at the loop "
+               "frequency (clipped to the grid) of E*f^power", f_eq.loc(), derived=T.show(win, 160))
+    m = op("nanmean", win, Str("frequency"))
+    ref = op("nanmean", (win - m)**2, Str("frequency")) / m**2
+    ctx.equiv("R12.5", tag + "[criterion]", tab.args[2], ref, f_eq.loc(),
+              "criterion == mean((W - mean W)^2)/mean(W)^2: the squared coefficient of variation of the window, which does not "
+              "depend on the level of the spectrum, so windows are compared on relative flatness only", interp=it)
+    # each window result lands in its own slot: the counter advances by one per window from zero
+    slot = tab.args[1]
+    okslot = isinstance(slot, sp.Tuple) and len(slot.args) == 2 and fname(slot.args[1]) == "loopprefix" \
+        and slot.args[1].args[0] == 1 and slot.args[1].args[1] == lv
+    ctx.expect(okslot, "R12.5", tag + "[criterion slots]", "window k of the scan is stored in slot k (a counter that starts at 0 "
+               "and advances by one per window)", f_eq.loc(), derived=slot)
+    rng = tab.args[4] if len(tab.args) > 4 else None
+    i_min = op("argmin", sp.Abs(F), sp.Integer(-1))
+    okr = fname(rng) == "range" and len(rng.args) == 2 and T.equivalent(rng.args[0], i_min) == T.Verdict.EQUAL
+    ctx.expect(okr, "R12.5", tag + "[scan start]", "the scan starts at the bin closest to 0 Hz", f_eq.loc(), derived=rng)
+    V = sp.Symbol("criterion_table")
+    IM = sp.Symbol("selected_start")
+    for nm, t, arr in zip(("e", "a1", "b1"), terms, (S, dsv("a1"), dsv("b1"))):
+        t2 = t.xreplace({tab: V})
+        sel = [a for a in T.find_ops(t2, "argmin") if V in a.free_symbols]
+        oksel = len(sel) == 1 and sel[0] == op("argmin", V, sp.Integer(-1))
+        if oksel:
+            t2 = t2.xreplace({sel[0] + i_min: IM}).xreplace({sel[0]: IM - i_min})
+        sums = T.find_ops(t2, "loopsum")
+        oks = oksel and len(sums) == 1 and V not in t2.free_symbols
+        detail = ""
+        if oks:
+            X, ii, rg = sums[0].args[:3]
+            oks = rg == op("range", sp.Integer(0), nb) and fname(X) == "item" and T.equivalent(X.args[0], arr) == T.Verdict.EQUAL
+            last = None
+            if oks:
+                ix = X.args[1]
+                cl = T.find_ops(ix, "clip")
+                oks = len(cl) == 1 and T.equivalent(cl[0].args[0], IM + ii) == T.Verdict.EQUAL and cl[0].args[1] == 0 \
+                    and T.equivalent(cl[0].args[2], nf - 1 - nb) == T.Verdict.EQUAL
+                last = cl[0] if cl else None
+            # the sum is divided by the number of bins and nothing else is added
+            LS = sp.Symbol("window_sum")
+            t3 = t2.xreplace({sums[0]: LS})
+            lin = sp.expand(T.to_term(sp.diff(t3.replace(lambda x: fname(x) == "store", lambda x: x.args[2]), LS))) if oks else None
+            oks = oks and lin is not None and sp.simplify(lin - 1 / nb) == 0
+            detail = T.show(sums[0], 200)
+        ctx.expect(oks, "R12.5", tag + f"[{nm}]",
+                   f"{nm} is the mean over the `number_of_bins` bins that start at the window with the smallest criterion "
+                   "(argmin over the criterion table + scan start), bins clipped to the grid", f_eq.loc(), derived=detail or T.show(t2, 200))
+    ctx.absorb(it)
